@@ -40,14 +40,15 @@ func runC16(seed uint64, tier, dir, replay string) error {
 		for k := 0; k < block; k++ {
 			w := uint16(base + k)
 			ofs, nbits := w>>6, (w&63)+1
-			words[k] = uint64(of.VerifEncodeOfsNbits(ofs, nbits)) | uint64(of.VerifDecodeOfs(w))<<16 | uint64(of.VerifDecodeNbits(w))<<32
+			se := of.NewNXRange(int(ofs), int(ofs)+int(nbits)-1) // the same range by first and last bit
+			words[k] = uint64(of.VerifEncodeOfsNbits(ofs, nbits)) | uint64(of.VerifDecodeOfs(w))<<16 | uint64(of.VerifDecodeNbits(w))<<32 | uint64(se.ToOfsBits())<<40
 		}
 		o.Add(fmt.Sprintf("(Pairs %d %s)", base, intList(words)),
-			map[string]interface{}{"kind": "pairs", "base": base, "count": block, "packing": "enc(ofs=w>>6,nbits=(w&63)+1) | decodeOfs(w)<<16 | decodeNbits(w)<<32"},
+			map[string]interface{}{"kind": "pairs", "base": base, "count": block, "packing": "enc(ofs=w>>6,nbits=(w&63)+1) | decodeOfs(w)<<16 | decodeNbits(w)<<32 | NewNXRange(ofs,ofs+nbits-1).ToOfsBits()<<40"},
 			"pairs", fmt.Sprintf("%d", base))
 	}
 	o.Meta["exhaustive"] = true
-	o.Meta["rule"] = "all 528 ranges 0<=first<=last<=31 through NewNXRange, NewNXRangeByOfsNBits, ToUint32Mask, ToOfsBits, GetOfs, GetNbits and the mask bytes of NewRegMatchField; all 65536 (ofs<1024, 1<=nbits<=64) pairs through encodeOfsNbits and all 65536 words through decodeOfs/decodeNbits (32 blocks of 2048); a case is distinct by its range / block"
+	o.Meta["rule"] = "all 528 ranges 0<=first<=last<=31 through NewNXRange, NewNXRangeByOfsNBits, ToUint32Mask, ToOfsBits, GetOfs, GetNbits and the mask bytes of NewRegMatchField; all 65536 (ofs<1024, 1<=nbits<=64) pairs through encodeOfsNbits and through NewNXRange(first,last).ToOfsBits, and all 65536 words through decodeOfs/decodeNbits (32 blocks of 2048); a case is distinct by its range / block"
 	o.Meta["inputs_total"] = 528 + 65536
 	return o.Close()
 }
